@@ -53,6 +53,12 @@ Theorem C10_lists_exact :
 Proof. intros t ops id. exact (lists_exact _ id (inv_final _ ops (inv_init t))). Qed.
 Print Assumptions C10_lists_exact.
 
+(* the state the theorems speak of ([final]) is the state component of what the correspondence evaluates ([run]) *)
+Theorem C10_final_is_state_of_run :
+  forall ops s, fst (run s ops) = final s ops.
+Proof. exact final_is_fst_run. Qed.
+Print Assumptions C10_final_is_state_of_run.
+
 (* requests with an empty id or an expiry in the past change nothing and are answered 400 *)
 Theorem C10_bad_request_noop :
   forall s id e, ((id = 0)%N \/ (e < now s)%Z) ->
